@@ -1,3 +1,5 @@
 pub mod fops;
 pub mod mmap;
 pub mod seq;
+#[cfg(kmertools_verif)]
+pub mod verif;
